@@ -190,6 +190,8 @@ def xml_unmarshal(I, args, ins):
     ctx.event('xml.Unmarshal', t, info[0] if info else None)
     if info is not None and info[0] == 'marshal' and info[1] == t:
         return decode_into(I, t, ptr, info[2])
+    if info is not None and info[0] == 'xmltext':
+        return _unmarshal_text_element(I, info, t, ptr)
     if info is not None and info[0] == 'serialize':
         r = UNMARSHAL_ELEMENT_HOOK(I, info, t, ptr)
         if r is not NotImplemented:
@@ -225,6 +227,8 @@ def xml_decode_element(I, args, ins):
     dec = ctx.force(args[0])
     v = ctx.force(args[1])
     ent = ctx.ghost.get('xmldec', {}).get(dec.cell if dec is not None else None)
+    if ent is None and _tokens(I, dec) is not None:
+        raise Inconclusive('DecodeElement of a nested element in a text-element token stream')
     if ent is None:
         raise Inconclusive('DecodeElement on an unknown decoder')
     vt, value = ent
@@ -265,6 +269,113 @@ def xml_decode_element(I, args, ins):
             ctx.store_(p, value)
         else:
             raise Inconclusive('DecodeElement: no alias target found')
+    return None
+
+
+# ------------------------------------------------------------------ token-level text elements (comment splitting)
+# verifTextElement(local, space, pieces) is the text  <local xmlns="space">p0<!--c-->p1<!--c-->...pn</local> .
+# Unmarshalling it into a type with its own UnmarshalXML runs that method against a decoder that yields the
+# tokens (CharData / Comment / EndElement); into a plain struct it follows encoding/xml's documented rule for a
+# ",chardata" field: the character data of the element, accumulated over all its text tokens.
+
+XMLP = 'encoding/xml.'
+
+
+@intrinsic('verifTextElement')
+def i_text_element(I, args, ins):
+    ctx = I.ctx
+    pieces = I.slice_elems(ctx.force(args[2]))
+    return tag_bytes(I, ('xmltext', args[0], args[1], list(pieces)), 'xmltext')
+
+
+def _unmarshal_text_element(I, info, t, ptr):
+    ctx = I.ctx
+    _, local, space, pieces = info
+    fn = I.prog.method('*' + t, 'UnmarshalXML')
+    fj = I.prog.funcs.get(fn) if fn else None
+    if fj is not None and fj.get('hasbody'):
+        toks = []
+        for i, pc in enumerate(pieces):
+            if i > 0:
+                toks.append(('comment',))
+            if not (isinstance(pc, str) and pc == ''):
+                toks.append(('chardata', pc))
+        toks.append(('end', space, local))
+        dec = ctx.alloc(StructV([]), 'xml.Decoder')
+        ctx.ghost.setdefault('xmltokens', {})[dec.cell] = toks
+        NT = XMLP + 'Name'
+        name = I.prog.zero(NT).with_field(I.prog.field_index(NT, 'Space'), space).with_field(I.prog.field_index(NT, 'Local'), local)
+        ST = XMLP + 'StartElement'
+        start = I.prog.zero(ST).with_field(I.prog.field_index(ST, 'Name'), name)
+        return I.call_function(fn, [ptr, dec, start], None)
+    if I.prog.kind(t) != 'struct':
+        raise Inconclusive('text element into %s' % t)
+    v = I.prog.zero(t)
+    done = False
+    for i, f in enumerate(I.prog.fields(t)):
+        tag = f.get('tag') or ''
+        if 'xml:"' in tag and ',chardata' in tag.split('xml:"', 1)[1].split('"', 1)[0]:
+            text = pieces[0] if pieces else ''
+            for pc in pieces[1:]:
+                text = _concat(text, pc)
+            v = v.with_field(i, text)
+            done = True
+        elif f['n'] == 'XMLName':
+            NT = XMLP + 'Name'
+            v = v.with_field(i, I.prog.zero(NT).with_field(I.prog.field_index(NT, 'Space'), space).with_field(I.prog.field_index(NT, 'Local'), local))
+    if not done:
+        raise Inconclusive('text element into a struct without a chardata field')
+    ctx.store_(ptr, v)
+    return None
+
+
+def _concat(a, b):
+    if isinstance(a, str) and isinstance(b, str):
+        return a + b
+    if isinstance(a, str) and a == '':
+        return b
+    if isinstance(b, str) and b == '':
+        return a
+    return z3.Concat(zstr(a), zstr(b))
+
+
+def _tokens(I, dec):
+    dec = I.ctx.force(dec)
+    return I.ctx.ghost.get('xmltokens', {}).get(dec.cell if dec is not None else None)
+
+
+@stub('(*encoding/xml.Decoder).Token', '(*encoding/xml.Decoder).RawToken')
+def xml_decoder_token(I, args, ins):
+    ctx = I.ctx
+    toks = _tokens(I, args[0])
+    if toks is None:
+        raise Inconclusive('xml.Decoder.Token on an unmodelled decoder')
+    if not toks:
+        if 'io.EOF' in I.prog.globals:
+            return TupleV((None, ctx.load(I.global_ptr('io.EOF'))))
+        return TupleV((None, ctx.new_error('io', msg='EOF')))
+    t = toks.pop(0)
+    if t[0] == 'chardata':
+        s = t[1]
+        val = I.make_slice([ord(c) for c in s]) if isinstance(s, str) else SymBytes(s)
+        return TupleV((Iface(XMLP + 'CharData', val), None))
+    if t[0] == 'comment':
+        return TupleV((Iface(XMLP + 'Comment', I.make_slice([ord(c) for c in ' c '])), None))
+    NT = XMLP + 'Name'
+    name = I.prog.zero(NT).with_field(I.prog.field_index(NT, 'Space'), t[1]).with_field(I.prog.field_index(NT, 'Local'), t[2])
+    ET = XMLP + 'EndElement'
+    return TupleV((Iface(ET, I.prog.zero(ET).with_field(I.prog.field_index(ET, 'Name'), name)), None))
+
+
+@stub('(*encoding/xml.Decoder).Skip')
+def xml_decoder_skip(I, args, ins):
+    toks = _tokens(I, args[0])
+    if toks is None:
+        raise Inconclusive('xml.Decoder.Skip on an unmodelled decoder')
+    while toks:
+        t = toks.pop(0)
+        if t[0] == 'end':
+            break
     return None
 
 
